@@ -10,7 +10,7 @@ import XmppModel.Model.SendGuard
                                                        k tokens of its element; then Send(next))
     flush <entry> <form>                           -> 1 | 0   (is the element on the connection
                                                        when the call returns)
-    behind <fail|finish|twfail> <park> <k> <holder toks> <entry> <ns> <from|-> <startTok|-> <toks>
+    behind <fail|finish|twfail|encfail> <park> <k> <holder toks> <entry> <ns> <from|-> <startTok|-> <toks>
                                                    -> <first ok|fail> <second ok|broken> <canonical wire>
                                                        (a Send parked after `park` tokens of its element, stopping after k; the second
                                                        call queued for the lock; statuses from the SendGuard LTS
